@@ -147,20 +147,42 @@ def _eig(M):
     return np.linalg.eigvalsh((M + M.T) / 2.0)
 
 
+def _held(M, how):
+    """The matrix M as a caller may hold it: a fresh C-ordered float64 array, a view into a larger array (a station's block of a
+    network VCV: not contiguous), Fortran order, or an integer / single-precision array where those hold the values exactly."""
+    M = np.array(M, dtype=float)
+    if how == "view":
+        big = np.full((7, 8), 7.25)
+        big[2:5, 3:6] = M
+        return big[2:5, 3:6], big
+    if how == "fortran":
+        return np.asfortranarray(M), None
+    if how in ("int", "f32"):
+        B = np.rint(M / (np.abs(M).max() or 1.0) * 3.0)
+        if how == "int":
+            return (B @ B.T).astype(np.int64), None
+        return ((B @ B.T) / 64.0).astype(np.float32), None
+    return M, None
+
+
 def check_vcv(case):
     stt = repo.mod("geodepy.statistics")
     lat, lon = case["lat"], case["lon"]
-    V = np.array(case["vcv"], dtype=float)
+    Vh, big = _held(case["vcv"], case.get("held", "plain"))
+    big_before = None if big is None else big.copy()
+    V = np.array(Vh, dtype=float)           # the values the caller's array holds
     Vin = V.copy()
+    Vcall, V = Vh, V
     e, n, u = _frame(lat, lon)
     R = np.column_stack([e, n, u])
     scale = TR.fro(V)
     for name, fn, want in (("vcv_cart2local", stt.vcv_cart2local, R.T @ V @ R), ("vcv_local2cart", stt.vcv_local2cart, R @ V @ R.T)):
-        out = fn(V, lat, lon)
-        if not np.array_equal(V, Vin):
-            raise Fail("%s modified the caller's matrix" % name, expected=Vin, observed=V)
+        out = fn(Vcall, lat, lon)
+        if not np.array_equal(np.array(Vcall, dtype=float), Vin) or (big is not None and not np.array_equal(big, big_before)):
+            raise Fail("%s modified the caller's matrix" % name, expected=Vin, observed=np.array(Vcall, dtype=float))
         if getattr(out, "shape", None) != (3, 3):
             raise Fail("%s did not return a 3x3 matrix" % name, observed=repr(out))
+        out = np.array(out, dtype=float)
         if scale == 0:
             if np.abs(out).max() != 0:
                 raise Fail("%s of the zero matrix is not zero" % name, observed=out)
@@ -352,13 +374,16 @@ def _cls(case):
         if k in case:
             V = np.array(case[k])
             out.append("rank:%d" % (int(np.linalg.matrix_rank(V)) if V.any() else 0))
+    if "held" in case:
+        out.append("array:" + case["held"])
     return out
 
 
 frame_cases = st.fixed_dictionaries({"lat": S.whole_sometimes(lat_s), "lon": S.whole_sometimes(lon_s),
                                      "v": st.one_of(vec_s, vec_s.map(lambda p: [float(round(c)) for c in p])), "kind": S.angle_kind,
                                      "num": S.num_kind})
-vcv_cases = st.fixed_dictionaries({"lat": lat_s, "lon": lon_s, "vcv": psd_cond()})
+vcv_cases = st.fixed_dictionaries({"lat": lat_s, "lon": lon_s, "vcv": psd_cond(),
+                                   "held": st.sampled_from(["plain", "plain", "plain", "view", "fortran", "int", "f32"])})
 col_cases = st.fixed_dictionaries({"lat": lat_s, "lon": lon_s, "col": st.lists(st.one_of(S.floats(0.0, 1.0), S.log_uniform(1e-10, 10.0)),
                                                                                min_size=3, max_size=3)})
 @st.composite
